@@ -488,29 +488,30 @@ func c02Describe(ops []c02Op) []string {
 func c02OneRun(t *testing.T, rep *vfReport, seedSalt uint64, nNodes, nClients, nFaults, keys int) {
 	rng := vfNewRng(200 + seedSalt)
 	c := clu8NewCluster(t)
+	c.FastRaft = true // leader changes within the fault windows are the point; everything here tolerates them
 	defer c.Close()
 	r := &c02Run{c: c, rep: rep}
 	n0, err := c.NewNode()
 	if err != nil {
-		t.Fatalf("C02 harness: %v", err)
+		clu8Skip("C02 harness: %v", err)
 	}
 	if err := c.Bootstrap(n0); err != nil {
-		t.Fatalf("C02 harness: bootstrap: %v", err)
+		clu8Skip("C02 harness: bootstrap: %v", err)
 	}
 	for i := 1; i < nNodes; i++ {
 		n, err := c.NewNode()
 		if err != nil {
-			t.Fatalf("C02 harness: %v", err)
+			clu8Skip("C02 harness: %v", err)
 		}
 		if err := clu8JoinRetry(c, n, true, 90*time.Second); err != nil {
-			t.Fatalf("C02 harness: join: %v", err)
+			clu8Skip("C02 harness: join: %v", err)
 		}
 		if _, err := n.S.WaitForLeader(60 * time.Second); err != nil {
-			t.Fatalf("C02 harness: %s sees no leader", n.Name)
+			clu8Skip("C02 harness: %s sees no leader", n.Name)
 		}
 	}
 	if err := clu8ExecLeader(c, 90*time.Second, "CREATE TABLE IF NOT EXISTS kv (k INTEGER PRIMARY KEY, v INTEGER)"); err != nil {
-		t.Fatalf("C02 harness: %v", err)
+		clu8Skip("C02 harness: %v", err)
 	}
 	var wg sync.WaitGroup
 	for i := 0; i < nClients; i++ {
@@ -611,27 +612,27 @@ func c02FreshLeaderWindow(t *testing.T, rep *vfReport) {
 	defer c.Close()
 	n0, err := c.NewNode()
 	if err != nil {
-		t.Fatalf("C02 harness: %v", err)
+		clu8Skip("C02 harness: %v", err)
 	}
 	if err := c.Bootstrap(n0); err != nil {
-		t.Fatalf("C02 harness: %v", err)
+		clu8Skip("C02 harness: %v", err)
 	}
 	var fol []*clu8Node
 	for i := 0; i < 2; i++ {
 		n, err := c.NewNode()
 		if err != nil {
-			t.Fatalf("C02 harness: %v", err)
+			clu8Skip("C02 harness: %v", err)
 		}
 		if err := clu8JoinRetry(c, n, true, 90*time.Second); err != nil {
-			t.Fatalf("C02 harness: join: %v", err)
+			clu8Skip("C02 harness: join: %v", err)
 		}
 		if _, err := n.S.WaitForLeader(60 * time.Second); err != nil {
-			t.Fatalf("C02 harness: no leader on %s", n.Name)
+			clu8Skip("C02 harness: no leader on %s", n.Name)
 		}
 		fol = append(fol, n)
 	}
 	if err := clu8ExecLeader(c, 90*time.Second, "CREATE TABLE IF NOT EXISTS kv (k INTEGER PRIMARY KEY, v INTEGER)", "INSERT OR REPLACE INTO kv(k, v) VALUES(0, 1)"); err != nil {
-		t.Fatalf("C02 harness: %v", err)
+		clu8Skip("C02 harness: %v", err)
 	}
 	for _, n := range append([]*clu8Node{n0}, fol...) {
 		if !clu8Quiesce(n, 90*time.Second) {
@@ -757,27 +758,27 @@ func c02DeposedLeader(t *testing.T, rep *vfReport) bool {
 	defer c.Close()
 	n0, err := c.NewNode()
 	if err != nil {
-		t.Fatalf("C02 harness: %v", err)
+		clu8Skip("C02 harness: %v", err)
 	}
 	if err := c.Bootstrap(n0); err != nil {
-		t.Fatalf("C02 harness: %v", err)
+		clu8Skip("C02 harness: %v", err)
 	}
 	var fol []*clu8Node
 	for i := 0; i < 2; i++ {
 		n, err := c.NewNode()
 		if err != nil {
-			t.Fatalf("C02 harness: %v", err)
+			clu8Skip("C02 harness: %v", err)
 		}
 		if err := clu8JoinRetry(c, n, true, 90*time.Second); err != nil {
-			t.Fatalf("C02 harness: join: %v", err)
+			clu8Skip("C02 harness: join: %v", err)
 		}
 		if _, err := n.S.WaitForLeader(60 * time.Second); err != nil {
-			t.Fatalf("C02 harness: no leader on %s", n.Name)
+			clu8Skip("C02 harness: no leader on %s", n.Name)
 		}
 		fol = append(fol, n)
 	}
 	if err := clu8ExecLeader(c, 90*time.Second, "CREATE TABLE IF NOT EXISTS kv (k INTEGER PRIMARY KEY, v INTEGER)"); err != nil {
-		t.Fatalf("C02 harness: %v", err)
+		clu8Skip("C02 harness: %v", err)
 	}
 	if !n0.S.IsLeader() {
 		rep.Count("deposed-leader:aborted:leadership-moved-during-setup")
@@ -879,23 +880,23 @@ func c02ForwardedPath(t *testing.T, rep *vfReport) bool {
 	defer c.Close()
 	n0, err := c.NewNode()
 	if err != nil {
-		t.Fatalf("C02 harness: %v", err)
+		clu8Skip("C02 harness: %v", err)
 	}
 	if err := c.Bootstrap(n0); err != nil {
-		t.Fatalf("C02 harness: %v", err)
+		clu8Skip("C02 harness: %v", err)
 	}
 	f, err := c.NewNode()
 	if err != nil {
-		t.Fatalf("C02 harness: %v", err)
+		clu8Skip("C02 harness: %v", err)
 	}
 	if err := clu8JoinRetry(c, f, true, 90*time.Second); err != nil {
-		t.Fatalf("C02 harness: join: %v", err)
+		clu8Skip("C02 harness: join: %v", err)
 	}
 	if _, err := f.S.WaitForLeader(60 * time.Second); err != nil {
-		t.Fatalf("C02 harness: no leader on follower")
+		clu8Skip("C02 harness: no leader on follower")
 	}
 	if err := clu8ExecLeader(c, 90*time.Second, "CREATE TABLE IF NOT EXISTS kv (k INTEGER PRIMARY KEY, v INTEGER)"); err != nil {
-		t.Fatalf("C02 harness: %v", err)
+		clu8Skip("C02 harness: %v", err)
 	}
 	if !n0.S.IsLeader() {
 		rep.Note("forwarded path: leadership moved during setup [%s]", fmt.Sprint(n0.S.raft.State()))
@@ -905,11 +906,11 @@ func c02ForwardedPath(t *testing.T, rep *vfReport) bool {
 	// the leader's inter-node service and the follower's client
 	ln, err := net.Listen("tcp", "127.0.0.1:0")
 	if err != nil {
-		t.Fatalf("C02 harness: %v", err)
+		clu8Skip("C02 harness: %v", err)
 	}
 	svc := cluster.New(ln, n0.S, n0.S, nil)
 	if err := svc.Open(); err != nil {
-		t.Fatalf("C02 harness: cluster service: %v", err)
+		clu8Skip("C02 harness: cluster service: %v", err)
 	}
 	defer svc.Close()
 	client := cluster.NewClient(c02Dialer{}, 5*time.Second)
@@ -1047,21 +1048,21 @@ func c02KillRun(t *testing.T, rep *vfReport, seedSalt uint64) {
 	r := &c02Run{c: c, rep: rep}
 	n0, err := c.NewNode()
 	if err != nil {
-		t.Fatalf("C02 harness: %v", err)
+		clu8Skip("C02 harness: %v", err)
 	}
 	if err := c.Bootstrap(n0); err != nil {
-		t.Fatalf("C02 harness: %v", err)
+		clu8Skip("C02 harness: %v", err)
 	}
 	n1, err := c.NewNode()
 	if err != nil {
-		t.Fatalf("C02 harness: %v", err)
+		clu8Skip("C02 harness: %v", err)
 	}
 	if err := clu8JoinRetry(c, n1, true, 90*time.Second); err != nil {
-		t.Fatalf("C02 harness: %v", err)
+		clu8Skip("C02 harness: %v", err)
 	}
 	dir, err := os.MkdirTemp("", "c02-child-")
 	if err != nil {
-		t.Fatalf("C02 harness: %v", err)
+		clu8Skip("C02 harness: %v", err)
 	}
 	defer os.RemoveAll(dir)
 	r.remoteRaft, r.remoteSvc = c02FreePort(), c02FreePort()
@@ -1100,7 +1101,7 @@ func c02KillRun(t *testing.T, rep *vfReport, seedSalt uint64) {
 		return
 	}
 	if err := clu8ExecLeader(c, 90*time.Second, "CREATE TABLE IF NOT EXISTS kv (k INTEGER PRIMARY KEY, v INTEGER)"); err != nil {
-		t.Fatalf("C02 harness: %v", err)
+		clu8Skip("C02 harness: %v", err)
 	}
 	keys := 4
 	var wg sync.WaitGroup
@@ -1221,13 +1222,11 @@ func TestVerifC02(t *testing.T) {
 		rep.Count(fmt.Sprintf("phase-seconds:%s=%d", name, int(time.Since(tPhase).Seconds())))
 		tPhase = time.Now()
 	}
-	defer func() { phase("random-runs") }()
+	defer func() { phase("random-runs"); clu8Floor(t, rep) }()
 	c02SelfTest(t, rep)
 	for attempt := 0; attempt < 3; attempt++ {
 		done := false
-		if fin, dump := clu8Guard(10*time.Minute, func() { done = c02ForwardedPath(t, rep) }); !fin {
-			rep.Note("C02: forwarded-path scenario abandoned; goroutines: %s", dump)
-		}
+		clu8Case(rep, "forwarded-path", 10*time.Minute, func() { done = c02ForwardedPath(t, rep) })
 		if done {
 			break
 		}
@@ -1235,24 +1234,18 @@ func TestVerifC02(t *testing.T) {
 	phase("forwarded-path")
 	for attempt := 0; attempt < 2; attempt++ {
 		done := false
-		if fin, dump := clu8Guard(10*time.Minute, func() { done = c02DeposedLeader(t, rep) }); !fin {
-			rep.Note("C02: deposed-leader scenario abandoned; goroutines: %s", dump)
-		}
+		clu8Case(rep, "deposed-leader", 10*time.Minute, func() { done = c02DeposedLeader(t, rep) })
 		if done {
 			break
 		}
 	}
 	phase("deposed-leader")
 	for i := 0; i < vfScale(1, 4); i++ {
-		if fin, dump := clu8Guard(10*time.Minute, func() { c02FreshLeaderWindow(t, rep) }); !fin {
-			rep.Note("C02: fresh-leader window scenario abandoned; goroutines: %s", dump)
-		}
+		clu8Case(rep, "fresh-leader-window", 10*time.Minute, func() { c02FreshLeaderWindow(t, rep) })
 	}
 	phase("fresh-leader-window")
 	for i := 0; i < vfScale(0, 4); i++ { // thorough tier only (keeps the quick tier within its time budget)
-		if fin, dump := clu8Guard(15*time.Minute, func() { c02KillRun(t, rep, uint64(i)) }); !fin {
-			rep.Note("C02: kill -9 run abandoned; goroutines: %s", dump)
-		}
+		clu8Case(rep, "kill-9", 15*time.Minute, func() { c02KillRun(t, rep, uint64(i)) })
 	}
 	runs := vfScale(2, 10)
 	for i := 0; i < runs; i++ {
@@ -1260,9 +1253,6 @@ func TestVerifC02(t *testing.T) {
 		if vfThorough() && i%3 == 2 {
 			nodes = 5
 		}
-		if fin, dump := clu8Guard(20*time.Minute, func() { c02OneRun(t, rep, uint64(i), nodes, vfScale(4, 6), vfScale(7, 20), 4) }); !fin {
-			rep.Note("C02: a run did not finish within 20 min and was abandoned; goroutines: %s", dump)
-			rep.Count("runs-abandoned-by-watchdog")
-		}
+		clu8Case(rep, "random-run", 20*time.Minute, func() { c02OneRun(t, rep, uint64(i), nodes, vfScale(4, 6), vfScale(7, 20), 4) })
 	}
 }
